@@ -109,7 +109,7 @@ def matrices(n, d, k, base, tie_free=False):
         rs = np.random.RandomState(s)
         s += 1
         if tie_free:
-            X = np.column_stack([rs.permutation(n) * (0.5 + j) + 0.25 * j for j in range(d)]).astype(float)
+            X = np.column_stack([rs.permutation(n) * 0.75 + 0.25 * j for j in range(d)]).astype(float)
             X = X + 0.01 * X ** 2
         else:
             X = rs.randint(-4, 5, size=(n, d)).astype(float)
@@ -1004,6 +1004,7 @@ def run_tree(case):
                    'init_refused': cnt['init_refused']},
            'evals': st['executions'], 'distinct': len(logs), 'transitions': trans[0], 'validated': st.get('complete', 0),
            'states': [digest((jsonable(cfg), s)) for s in states], 'n_outcomes': len(outcomes),
+           'outcomes': sorted(outcomes),
            'max_depth': st['max_depth']}
     if st['violations']:
         by_sig = {}
@@ -1074,6 +1075,8 @@ def _record_trees(ctx, cases, section):
         return case, g_tree(case)
     for case, res in par.pmap(fn, cases, chunksize=1, ordered=True):
         allv = res.pop('all_viol', None)
+        for o in res.pop('outcomes', ()):
+            ctx.outcomes.add(digest((jsonable(_cfg_of(case)), o)))
         ctx.record(case, res, section)
         if 'executions' in (res.get('cnt') or {}):
             ctx.extra.setdefault('trees', []).append({
@@ -1191,8 +1194,11 @@ def run(ctx):
     if want('mh-step'):
         cases = []
         for r in env_rows:
-            for pr in ('uniform', 'truncnorm'):
-                for ret, lay in (('array1', (2, 2)), ('float', (2, 1))):
+            combos = [('uniform', 'array1', (2, 2)), ('truncnorm', 'float', (2, 1))]
+            if not q:
+                combos += [('uniform', 'float', (2, 1)), ('truncnorm', 'array1', (2, 2)), ('truncnorm', 'array1', (4, 1))]
+            for pr, ret, lay in combos:
+                if True:
                     for k in range(1 if q else 3):
                         c = {'kind': 'tree', 'drive': 'steps', 'rows': r, 'prior': pr, 'ret': ret, 'useed': base + k,
                              'n_sim_round': lay[0], 'batch_size': lay[1], 'll0': 0.5, 'N': 3 if q else 4}
@@ -1209,7 +1215,8 @@ def run(ctx):
                 c = {'kind': 'tree', 'drive': 'sample', 'rows': r, 'prior': 'uniform', 'ret': 'array1',
                      'useed': base + 1, 'n_sim_round': lay[0], 'batch_size': lay[1], 'N': 2 if q else 3}
                 cases.append(c)
-                cases.append(dict(c, N=4 if q else 6, bound=2 if q else 3))
+                if not q or lay == (2, 2):
+                    cases.append(dict(c, N=4 if q else 6, bound=2 if q else 3))
         _record_trees(ctx, cases, 'mh-chain')
 
     ctx.rule = (
